@@ -616,7 +616,7 @@ func isContinueErr(idx int) bool {
 
 type pipeListener struct{ ch chan net.Conn }
 
-func (l *pipeListener) Accept() (net.Conn, error)             { return <-l.ch, nil }
+func (l *pipeListener) Accept() (net.Conn, error)              { return <-l.ch, nil }
 func (l *pipeListener) Configure(c net.Conn) (net.Conn, error) { return c, nil }
 
 type chosen struct{ parser, responder string }
@@ -896,7 +896,7 @@ func (g gen07) nearBin() []byte {
 		b[wire.OffKeyLen+1] = byte(g.r.Intn(6)) // key length edited
 	case 4:
 		b[5], b[6], b[7] = byte(g.r.U64()), byte(g.r.U64()), byte(g.r.U64()) // data type, vbucket: ignored
-		copy(b[16:24], g.r.Bytes(8))                                          // CAS: ignored
+		copy(b[16:24], g.r.Bytes(8))                                         // CAS: ignored
 	case 5:
 		b[1] = []byte{0x09, 0x41, 0x0a, 0x00, 0x40, 0x0c, 0x05}[g.r.Intn(7)] // opcode swapped
 	case 6:
